@@ -136,7 +136,7 @@ def _setup(b, case):
     I.call(I.getattr_(cs, 'new_frame'), [], {})
     I.call(I.getattr_(cs, 'enter_loop'), [], {})
     m.attrs['_vm_math'].attrs['_eval_stack'].attrs['_stack'].items.append(b.sym('int', 'stale_operand'))
-    m.attrs['_vm_io'].attrs['_unnamed'].items.append(b.sym('int', 'pending_output'))
+    b.I.getattr_(m.attrs['_vm_io'], '_unnamed').items.append(b.sym('int', 'pending_output'))
     m.attrs['_keep_running'] = b.sym('bool', 'keep_running')
     m.attrs['_enable_pause'] = b.sym('bool', 'enable_pause')
     m.attrs['_cue_time'] = b.sym('int', 'cue')
